@@ -74,7 +74,9 @@ def stmt_text(prog, i, ibody_kinds):
             return "procedure(%s%d), pointer :: %s" % (PFX[ibody_kinds.get(tn[1], "sub")], tn[1], nm(st["name"]))
         if kind == "typedvar":
             return "type(%s) :: %s" % (nm(st["tname"]), nm(st["name"]))
-        return "integer :: " + nm(st["name"])
+        # plain declarations rotate through intrinsic types (some start with the fixed-form comment letters c / d)
+        ty = ["integer", "character(len=3)", "double precision", "complex", "real"][st["ln"] % 5]
+        return ty + " :: " + nm(st["name"])
     if op in ("contains", "typecontains"):
         return "contains"
     if op == "binding":
